@@ -118,6 +118,8 @@ inductive Ex where
   | nodeNotify (g : Ex)                 -- `g.node.notify`
   | getNotifier (g hd tg dp : Ex)       -- `g.node.get_notifier(handler=hd, target=tg, dispatcher=dp)`
   | getMaintainer (g c hd tg dp : Ex)   -- `g.node.get_maintainer(graph=c, handler=hd, target=tg, dispatcher=dp)`
+  | evOld (e : Ex)                      -- `e.old` of a trait change event
+  | evNew (e : Ex)                      -- `e.new`
   deriving Repr
 
 inductive St where
@@ -137,14 +139,18 @@ inductive St where
   | append (l e : Ex)                                 -- `l.append(e)`
   | clear (l : Ex)                                    -- `l.clear()`
   | whilePop (l : Ex) (i j : Nat) (body : St)         -- `while l: i, j = l.pop(); body`
-  | construct (dst : Nat) (args : List Ex)            -- `dst = _AddOrRemoveNotifier(…)` (args in `__init__` order)
-  | callFn (name : String) (args : List Ex)           -- a module-level function (args in parameter order)
+  | construct (dst : Nat) (args : List (Option Ex))   -- `dst = _AddOrRemoveNotifier(…)` (args in `__init__` order; `none` = omitted)
+  | callFn (name : String) (args : List (Option Ex))  -- a module-level function (args in parameter order; `none` = omitted)
   | tryS (body handler orelse : St)                   -- `try: … except Exception: … else: …`
   | reraise                                           -- bare `raise`
+  | ifObservable (e : Ex) (body : St)                 -- `if all(e is not skipped for skipped in UNOBSERVABLE_VALUES): body`
+  | tryOnly (body : St) (exc : Exc) (handler : St)    -- `try: body except <exc>: handler`
   deriving Repr
 
 structure Func where
   nparams : Nat
+  /-- the default of each parameter (`none`: the parameter is required); literals only -/
+  defaults : List (Option Ex)
   body : St
   deriving Repr
 
@@ -153,9 +159,12 @@ structure Prog where
   fns : List (String × Func)
   /-- `_AddOrRemoveNotifier.__init__`: number of parameters, and `self.<f> = e` rows -/
   initParams : Nat
+  initDefaults : List (Option Ex)
   init : List (Fld × Ex)
   /-- methods of `_AddOrRemoveNotifier` (no parameter but self) -/
   methods : List (String × St)
+  /-- the names listed in `UNOBSERVABLE_VALUES` (_has_traits_helpers.py) -/
+  unobservable : List String
   deriving Repr
 
 /-! ### values and state -/
@@ -186,6 +195,20 @@ inductive PV where
   | meth (m : String)                      -- bound method of the current `self`
   | meths (ms : List String)
   | inst (fr : Frame)
+  | val (v : Val)                          -- a trait value (what a change event carries)
+  | event (old new : Val)                  -- a TraitChangeEvent
+
+/-- a trait value as the `object` of a walk: a heap object, or a value outside the heap -/
+def valW : Val → W
+  | .ref i => some i
+  | _ => none
+
+/-- `v is <name>` for the names `UNOBSERVABLE_VALUES` may list (`Uninitialized` = absent from `__dict__`) -/
+def isNamedValue (nm : String) (v : Val) : Bool :=
+  if nm = "Undefined" then v == .undef
+  else if nm = "Uninitialized" then v == .unset
+  else if nm = "None" then v == .none
+  else false
 
 def Frame.get (fr : Frame) : Fld → PV
   | .object => .obj fr.object
@@ -220,7 +243,7 @@ inductive Flow where
 abbrev G := Hooks × Logs
 
 inductive Callee where
-  | fn (name : String) (args : List PV)
+  | fn (name : String) (args : List (Option PV))      -- `none` = argument omitted by the caller
   | meth (name : String) (fr : Frame)
 
 /-! ### expressions (pure; `none` = stuck) -/
@@ -265,12 +288,44 @@ def eval (self : Option Frame) (vars : Vars) (nlogs : Nat) : Ex → Option PV
     | some (.graph gv), some (.graph cv), some (.handler n), some (.obj t), some .disp =>
       (gv.getMaintainer cv n t).map .notifier
     | _, _, _, _, _ => none
+  | .evOld e => match eval self vars nlogs e with
+    | some (.event old _) => some (.val old)
+    | _ => none
+  | .evNew e => match eval self vars nlogs e with
+    | some (.event _ new) => some (.val new)
+    | _ => none
 
 def evalAll (self : Option Frame) (vars : Vars) (nlogs : Nat) : List Ex → Option (List PV)
   | [] => some []
   | e :: es => match eval self vars nlogs e, evalAll self vars nlogs es with
     | some v, some vs => some (v :: vs)
     | _, _ => none
+
+/-- the arguments of a call, `none` = omitted -/
+def evalAllO (self : Option Frame) (vars : Vars) (nlogs : Nat) : List (Option Ex) → Option (List (Option PV))
+  | [] => some []
+  | none :: es => (evalAllO self vars nlogs es).map (none :: ·)
+  | some e :: es => match eval self vars nlogs e, evalAllO self vars nlogs es with
+    | some v, some vs => some (some v :: vs)
+    | _, _ => none
+
+/-- a parameter default: the literals `None`, `True`, `False` -/
+def evalLit : Ex → Option PV
+  | .noneLit => some .none
+  | .boolLit b => some (.bool b)
+  | _ => none
+
+/-- bind the arguments of a call to the parameters: an omitted argument takes the default written in the
+callee's signature; no default: stuck -/
+def bindArgs : List (Option Ex) → List (Option PV) → Option (List PV)
+  | [], [] => some []
+  | d :: ds, a :: as =>
+    match (match a with
+           | some v => some v
+           | none => d.bind evalLit), bindArgs ds as with
+    | some v, some vs => some (v :: vs)
+    | _, _ => none
+  | _, _ => none
 
 /-- the statement that evaluated `[]` allocates the log it refers to -/
 def commit (v : PV) (logs : Logs) : Logs :=
@@ -280,7 +335,10 @@ def commit (v : PV) (logs : Logs) : Logs :=
 
 /-- `_AddOrRemoveNotifier(…)`: evaluate the rows of `__init__` on the arguments. -/
 def mkFrame (init : List (Fld × Ex)) (args : List PV) (nlogs : Nat) : Option Frame :=
-  let ev (f : Fld) : Option PV := (init.lookup f).bind (eval none (ofArgs args) nlogs)
+  let ev (f : Fld) : Option PV := ((init.lookup f).bind (eval none (ofArgs args) nlogs)).map
+    (fun v => match v with
+      | .val w => .obj (valW w)      -- a trait value used as an object
+      | v => v)
   match ev .object, ev .graph, ev .handler, ev .target, ev .dispatcher, ev .remove, ev .ownsProcessed,
     ev .processed with
   | some (.obj x), some (.graph g), some (.handler n), some (.obj t), some .disp, some (.bool rm), some (.bool ow),
@@ -320,6 +378,11 @@ def viaCall (call : Callee → G → G × Flow) (c : Callee) (st : Sto) : Sto ×
   | (g, .next) => ({ st with H := g.1, logs := g.2 }, .next)
   | (g, .raised e) => ({ st with H := g.1, logs := g.2 }, .raised e)
   | (g, _) => ({ st with H := g.1, logs := g.2 }, .stuck)
+
+/-- a call of a module-level function as a statement: the functions of this language return nothing, so an undo
+log allocated during the call is unreachable afterwards and is dropped -/
+def viaCallT (call : Callee → G → G × Flow) (c : Callee) (st : Sto) : Sto × Flow :=
+  ({ (viaCall call c st).1 with logs := (viaCall call c st).1.logs.take st.logs.length }, (viaCall call c st).2)
 
 def exec (h : Heap) (P : Prog) (call : Callee → G → G × Flow) (self : Option Frame) : St → Sto → Sto × Flow
   | .skip, st => (st, .next)
@@ -397,7 +460,7 @@ def exec (h : Heap) (P : Prog) (call : Callee → G → G × Flow) (self : Optio
     | some (.log p) => popLoop p i j (fun s => exec h P call self body s) (st.logs.getD p []).length st
     | _ => (st, .stuck)
   | .construct dst args, st =>
-    match evalAll self st.vars st.logs.length args with
+    match (evalAllO self st.vars st.logs.length args).bind (bindArgs P.initDefaults) with
     | some vs =>
       if vs.length = P.initParams then
         (match mkFrame P.init vs st.logs.length with
@@ -406,8 +469,8 @@ def exec (h : Heap) (P : Prog) (call : Callee → G → G × Flow) (self : Optio
       else (st, .stuck)
     | none => (st, .stuck)
   | .callFn name args, st =>
-    match evalAll self st.vars st.logs.length args with
-    | some vs => viaCall call (.fn name vs) st
+    match evalAllO self st.vars st.logs.length args with
+    | some vs => viaCallT call (.fn name vs) st
     | none => (st, .stuck)
   | .tryS body handler orelse, st =>
     match exec h P call self body st with
@@ -418,6 +481,14 @@ def exec (h : Heap) (P : Prog) (call : Callee → G → G × Flow) (self : Optio
     match st.exc with
     | some e => (st, .raised e)
     | none => (st, .stuck)
+  | .ifObservable e body, st =>
+    match eval self st.vars st.logs.length e with
+    | some (.val v) => if P.unobservable.all (fun nm => !isNamedValue nm v) then exec h P call self body st else (st, .next)
+    | _ => (st, .stuck)
+  | .tryOnly body exc handler, st =>
+    match exec h P call self body st with
+    | (st', .raised e) => if e = exc then exec h P call self handler { st' with exc := some e } else (st', .raised e)
+    | r => r
 
 /-- the result of a call: `return` ends it normally -/
 def endCall (r : Sto × Flow) : G × Flow :=
@@ -431,9 +502,12 @@ def run (h : Heap) (P : Prog) : Nat → Callee → G → G × Flow
   | n + 1, .fn name args, g =>
     match P.fns.lookup name with
     | some f =>
-      if args.length = f.nparams then
-        endCall (exec h P (run h P n) none f.body ⟨g.1, g.2, ofArgs args, none⟩)
-      else (g, .stuck)
+      (match bindArgs f.defaults args with
+       | some vs =>
+         if vs.length = f.nparams then
+           endCall (exec h P (run h P n) none f.body ⟨g.1, g.2, ofArgs vs, none⟩)
+         else (g, .stuck)
+       | none => (g, .stuck))
     | none => (g, .stuck)
   | n + 1, .meth name fr, g =>
     match P.methods.lookup name with
